@@ -961,7 +961,11 @@ class PyvalColorizer:
 
             elif op == sre_constants.SUBPATTERN: #type:ignore[attr-defined]
                 if args[0] is None:
-                    self._output(r'(?:', self.RE_GROUP_TAG, state)
+                    # The flags that are turned on or off in the group: (?aiLmsux-imsx:...)
+                    flags = ''.join(c for (c,n) in sorted(sre_parse36.FLAGS.items()) if n & args[1])
+                    if args[2]:
+                        flags += '-' + ''.join(c for (c,n) in sorted(sre_parse36.FLAGS.items()) if n & args[2])
+                    self._output(f'(?{flags}:', self.RE_GROUP_TAG, state)
                 elif args[0] in groups:
                     self._output(r'(?P<', self.RE_GROUP_TAG, state)
                     self._output(groups[args[0]], self.RE_REF_TAG, state)
